@@ -17,7 +17,7 @@ AUX = {
 }
 AUX_DEPS = {"B": ["R", "S"]}
 SAMPLES = {"INT": ["7", "0"], "ID": ["x"], "STRING": ['"s"'], "[xy]+": ["x", "xy"], "x(y)z": ["xyz"], "BOOL": ["true"],
-           "FLOAT": ["1.5"], "NUMBER": ["7", "1.5"], "ab|,": ["ab", ","], "ab": ["ab"], "x+": ["x", "xx"]}
+           "FLOAT": ["1.5"], "NUMBER": ["7", "1.5"], "ab|,": ["ab", ","], "ab": ["ab"], "x+": ["x", "xx"], ",|;": [",", ";"]}
 AUX_TOKENS = {"R": ["r", "7"], "S": ["s", "x"], "B": ["r", "7", "s", "x"], "T": ["m", "n"], "V": ["7", "v"]}
 
 
